@@ -282,6 +282,9 @@ def battery_selftest(ctx):
     r = battery_replay(ctx, 'native battery', 'est/expr.rs: JSON policy format round trip', 'native JSON round-trip battery')
     if r and r[0] != 'unreplayed':
         return r
+    r = link_battery(ctx, 'native battery (links)', 'est/scope_constraints.rs: link of a scope constraint', 'native linked-policy JSON battery')
+    if r and r[0] != 'unreplayed':
+        return r
     return battery_replay(ctx, 'native battery (PST)', 'pst/*: programmatic syntax tree round trip', 'native PST round-trip battery', 'PST')
 
 
@@ -508,12 +511,110 @@ def policy_round_trip(ctx, has_cond, effect):
     ctx.decide(f'{nm}/witness', [z3.Or([z3.And(o.pc) if o.pc else T for o in rets2] or [F])], expect='sat', ex=ex2)
 
 
+def link_obligation(ctx, who, label, build, build_linked):
+    """est::{Principal,Resource}Constraint::link(vals): a slot is replaced by the entity bound to THAT slot and nothing else changes - so the JSON form of a linked
+    policy is the JSON form of the policy one gets by linking the AST (whose scope constraint is `build_linked`)"""
+    P = ctx.prog('core')
+    est_ty = 'scope_constraints::' + ('PrincipalConstraint' if who == 'principal' else 'ResourceConstraint')
+    f1 = [f for f in P.find(r'>::from$', 'cedar-policy-core/src/est/scope_constraints.rs') if len(f.args) == 1 and f.args[0][1].endswith('PrincipalOrResourceConstraint') and f.ret.endswith(est_ty)]
+    fl = [f for f in P.find(r'>::link$', 'cedar-policy-core/src/est/scope_constraints.rs') if len(f.args) == 2 and f.args[0][1].endswith(est_ty)]
+    if len(f1) != 1 or len(fl) != 1:
+        raise LookupError(f'{who} constraint link: {len(f1)} / {len(fl)} candidates')
+    f1, fl = f1[0], fl[0]
+    ctx.use(fl)
+    uids = [Opaque('ast::entity::EntityUID', f'uid{i}') for i in range(2)]
+    jsons = [Opaque('entities::json::value::TypeAndId', f'uid{i} as JSON') for i in range(2)]
+    ety, ety_txt = Opaque('ast::entity::EntityType', 'entity type'), Opaque('smol_str::SmolStr', 'entity type as text')
+    tok = {j.id: f'uid{i}' for i, j in enumerate(jsons)}
+    tok.update({ety_txt.id: 'entity_type'})
+    BOUND = z3.Bool('slot_is_bound')
+    want_slot = 'principal' if who == 'principal' else 'resource'
+
+    def to_est(node):
+        ex = ctx.new_exec('core')
+        ex.havoc_unknown = HAVOC
+        install_maps(ex)
+        C.install(ex)
+        uidx = {u.id: i for i, u in enumerate(uids)}
+        ex.stub(r'TypeAndId as From<&.*EntityUID>>::from$|<&.*EntityUID as Into<.*TypeAndId>>::into$', lambda ex_, st, c, A: (lambda i: None if i is None else jsons[i])(uidx.get(getattr(strip(ex_, st, A[0]), 'id', None))), 'EntityUID -> TypeAndId (opaque)')
+        ex.stub(r'(EntityType>?|T) as (ToSmolStr|ToString)>::(to_smolstr|to_string)$', lambda ex_, st, c, A: ety_txt if getattr(strip(ex_, st, A[0]), 'id', None) == ety.id else None, 'printing of the entity type (opaque text)')
+        outs = ex.run(f1, [node])
+        rets = [o for o in outs if o.kind == 'ret']
+        if len(rets) != 1:
+            raise NotEncoded(f'est of a {label} constraint: {len(rets)} results')
+        return ex, rets[0]
+    ex0, r0 = to_est(build(uids, ety))
+    ex1, r1 = to_est(build_linked(uids, ety))
+    expected = cshape(ex1, r1.st, r1.val, tok)
+    ex = ctx.new_exec('core')
+    ex.havoc_unknown = HAVOC
+    ex.max_paths = 400
+    ex.from_wrappers.add('LinkingError')
+    install_maps(ex)
+    C.install(ex)
+    val = Agg('variant', 'entities::json::value::EntityUidJson', 'ImplicitEntityEscape', [jsons[1]])
+
+    def vals_get(ex_, st, c, A):
+        s_ = strip(ex_, st, A[1])
+        st.notes['asked'] = st.notes.get('asked', []) + [repr(s_)[:80]]
+        return [([BOUND], some(ex_.new_cell(st, val, 'val'))), ([z3.Not(BOUND)], none())]
+    ex.stub(r'HashMap::<.*SlotId, .*EntityUidJson.*>::get::<', vals_get, 'vals.get(slot): bound (the JSON of uid1) or not, logged')
+    outs = ex.run(fl, [r0.val, Ref(0, ('local', 'VALS'))], heap={'VALS': Opaque('HashMap<SlotId, EntityUidJson>', 'slot bindings')})
+    ctx.absorb(ex)
+    nm = f'est {who} constraint link[{label}]'
+    ctx.panic_summary(nm, outs, ex)
+    rets = [o for o in outs if o.kind == 'ret']
+    has_slot = 'slot' in label
+    bad = []
+    last = None
+    for o in rets:
+        if isinstance(o.val, Agg) and o.val.variant == 'Ok':
+            got = cshape(ex, o.st, o.val.fields[0], tok)
+            last = got
+            good = z3.And(z3.BoolVal(got == expected), BOUND if has_slot else T)
+        else:
+            good = z3.And(z3.BoolVal(has_slot), z3.Not(BOUND))
+        bad.append(z3.And(o.pc + [z3.Not(good)]))
+    ctx.decide(f'{nm}/the slot becomes the bound entity, nothing else changes', [z3.Or(bad) if bad else T], ex=ex, sample={'expected': str(expected)[:160], 'got': str(last)[:160]},
+               on_sat=lambda m: link_battery(ctx, nm, 'est/scope_constraints.rs: link of a scope constraint', f'linking a {label} {who} constraint in the JSON form gives another constraint than linking the AST'))
+    ctx.decide(f'{nm}/paths-cover', [z3.Not(z3.Or([z3.And(o.pc) if o.pc else T for o in rets]))], ex=ex)
+    ctx.decide(f'{nm}/witness', [z3.Or([z3.And(o.pc) if o.pc else T for o in rets] or [F])], expect='sat', ex=ex)
+
+
+LINK_TEMPLATES = ['permit(principal == ?principal, action, resource == ?resource);', 'permit(principal in ?principal, action, resource in ?resource);',
+                  'forbid(principal is User in ?principal, action, resource is Doc in ?resource);', 'permit(principal == ?principal, action, resource in ?resource);',
+                  'permit(principal in ?principal, action, resource == ?resource);', 'permit(principal, action, resource == ?resource);']
+
+
+def link_battery(ctx, name, role, why):
+    cache = ctx.__dict__.setdefault('_c06_link_battery', {})
+    if 'r' not in cache:
+        cache['r'] = None
+        for t in LINK_TEMPLATES:
+            a = ctx.native.ask({'op': 'link_json', 'template': t})
+            if 'equal' not in a:
+                return ctx.mismatch(name, f'link_json probe `{t}`: {a}')
+            if not a['equal']:
+                cache['r'] = (f'the link of `{t}` is `{a.get("linked")}` but its JSON form reads back as `{a.get("back")}`', {'op': 'link_json', 'template': t})
+                break
+    if cache['r']:
+        return ctx.violation(name, role, f'{why}; natively: {cache["r"][0]}', cache['r'][1])
+    return ('unreplayed', f'{why}; but the {len(LINK_TEMPLATES)} linked templates of the battery survive to_json / from_json')
+
+
 def families(ctx):
     fam = [(f'round trip of a {label} node', (lambda label=label, b=b: round_trip(ctx, label, b))) for label, b in nodes()]
     fam += [(f'PST round trip of a {label} node', (lambda label=label, b=b: round_trip(ctx, label, b, 'PST'))) for label, b in nodes() if not label.startswith('extension call')]
     for who in ('principal', 'resource'):
         fam += [(f'{who} constraint {label}', (lambda who=who, label=label, b=b: constraint_round_trip(ctx, who, label, b))) for label, b in constraint_shapes()]
     fam += [(f'action constraint {label}', (lambda label=label, b=b: constraint_round_trip(ctx, 'action', label, b, action=True))) for label, b in action_shapes()]
+    linked = {'== slot': '== entity', 'in slot': 'in entity', 'is .. in slot': 'is .. in entity'}
+    shapes = dict(constraint_shapes())
+    for who in ('principal', 'resource'):
+        for label, b in constraint_shapes():
+            tgt = shapes[linked.get(label, label)]
+            bl = (lambda u, t, tgt=tgt: tgt([u[1], u[0]], t)) if label in linked else b
+            fam.append((f'est {who} constraint link {label}', (lambda who=who, label=label, b=b, bl=bl: link_obligation(ctx, who, label, b, bl))))
     fam += [(f'template {eff} cond={hc}', (lambda hc=hc, eff=eff: policy_round_trip(ctx, hc, eff))) for hc in (True, False) for eff in ('Permit', 'Forbid')]
     return fam
 
